@@ -110,6 +110,20 @@ def run(tier, rng, C):
                       'nontrivial': shape != 'scalar' or True})
         meta[cid] = (pre, post, shape)
 
+    # long templates: many embedded references in one string (each resolved independently)
+    for i in range(12 if tier == 'quick' else 200):
+        k = rng.choice([65, 70, 100, 9, 24])
+        hops = 1 if k >= 65 else rng.randint(3, 9)
+        es = [(S('v0'), rng.choice([I(5), S('txt'), ('l', [I(1), I(2)]), M(('q', I(1)))]))]
+        es += [(S('v%d' % h), S('${v%d}' % (h - 1))) for h in range(1, hops + 1)]
+        es.append((S('t'), S('${v%d}' % hops)))
+        es.append((S('s'), S('|'.join(['${t}'] * k))))
+        cid = C.case_id('L', i)
+        layers = [('m', es)]
+        cases.append({'id': cid, 'line': V.stack_line(cid, 'value', layers),
+                      'show': 'template with %d references through %d aliases: %s' % (k, hops, V.stack_show(layers)[:200]), 'nontrivial': True})
+        meta[cid] = (None, None, 'template')
+
     def oracle(cases, mobs, iobs):
         fails = []
         want = []
@@ -131,6 +145,8 @@ def run(tier, rng, C):
         tout = C.run_sharded(C.DRIVER, lines)
         for c, d in want:
             pre, post, shape = meta[c['id']]
+            if shape == 'template':
+                continue
             to = tout.get(c['id'], '')
             if not to.startswith('ok '):
                 continue
